@@ -20,6 +20,9 @@ package flows
 //@   ensures[cut-claims-order] (result1 == nil && result0 != buildParams) ==> forall(k, 0, old(len(buildParams.Claims)), keepBlk(old(buildParams.Claims[k]).BlockNum, result0.FromBlock, result0.ToBlock) ==> cntC(old(seq(buildParams.Claims)), result0.FromBlock, result0.ToBlock, k) < len(result0.Claims) && result0.Claims[cntC(old(seq(buildParams.Claims)), result0.FromBlock, result0.ToBlock, k)] == old(buildParams.Claims[k]))
 //@   ensures[retry-not-resized] (f.maxL2BlockNumber > 0 && buildParams != nil && old(buildParams.ToBlock) > f.maxL2BlockNumber && old(buildParams.RetryCount) > 0 && old(buildParams.LastSentCertificate) != nil && !f.allowToResizeRetryCert) ==> result1 != nil
 //@   ensures[input-unchanged] buildParams != nil ==> buildParams.FromBlock == old(buildParams.FromBlock) && buildParams.ToBlock == old(buildParams.ToBlock) && buildParams.Bridges == old(buildParams.Bridges) && buildParams.Claims == old(buildParams.Claims)
+//@   ensures[range-not-inverted] (result1 == nil && buildParams != nil) ==> result0.FromBlock <= result0.ToBlock
+//@   ensures[claims-keep-their-global-index] (result1 == nil && buildParams != nil && forall(k, 0, old(len(buildParams.Claims)), old(buildParams.Claims[k]).GlobalIndex != nil)) ==> forall(j, 0, len(result0.Claims), result0.Claims[j].GlobalIndex != nil)
+//@   ensures[scalars-kept] (result1 == nil && buildParams != nil) ==> result0.RetryCount == old(buildParams.RetryCount) && result0.LastSentCertificate == old(buildParams.LastSentCertificate) && result0.CertificateType == old(buildParams.CertificateType) && result0.CreatedAt == old(buildParams.CreatedAt) && result0.AggchainProof == old(buildParams.AggchainProof)
 
 // ---- size limit (C17): shrink from the end, one block at a time
 
@@ -33,10 +36,12 @@ package flows
 //@   ensures[size-or-single] f.cfg.MaxCertSize == 0 || result0.ToBlock == result0.FromBlock || estSize(seq(result0.Bridges), len(result0.Bridges), seq(result0.Claims), len(result0.Claims), result0.CertificateType) <= f.cfg.MaxCertSize
 //@   ensures[no-limit] f.cfg.MaxCertSize == 0 ==> result0 == fullCert
 //@   ensures[input-unchanged] fullCert.FromBlock == old(fullCert.FromBlock) && fullCert.ToBlock == old(fullCert.ToBlock) && fullCert.Bridges == old(fullCert.Bridges) && fullCert.Claims == old(fullCert.Claims)
+//@   ensures[claims-keep-their-global-index] (forall(k, 0, old(len(fullCert.Claims)), old(fullCert.Claims[k]).GlobalIndex != nil)) ==> forall(j, 0, len(result0.Claims), result0.Claims[j].GlobalIndex != nil)
 //@   ensures[scalars-kept] result0.RetryCount == old(fullCert.RetryCount) && result0.LastSentCertificate == old(fullCert.LastSentCertificate) && result0.CertificateType == old(fullCert.CertificateType) && result0.CreatedAt == old(fullCert.CreatedAt)
 //@   loop 0 invariant currentCert.RetryCount == old(fullCert.RetryCount) && currentCert.LastSentCertificate == old(fullCert.LastSentCertificate) && currentCert.CertificateType == old(fullCert.CertificateType) && currentCert.CreatedAt == old(fullCert.CreatedAt)
 //@   loop 0 invariant currentCert != nil && currentCert.FromBlock == fullCert.FromBlock && currentCert.FromBlock <= currentCert.ToBlock && currentCert.ToBlock <= fullCert.ToBlock
 //@   loop 0 invariant currentCert == fullCert || fresh(currentCert)
+//@   loop 0 invariant (forall(k, 0, len(fullCert.Claims), fullCert.Claims[k].GlobalIndex != nil)) ==> forall(j, 0, len(currentCert.Claims), currentCert.Claims[j].GlobalIndex != nil)
 //@   loop 0 invariant f.cfg.MaxCertSize == 0 ==> currentCert == fullCert
 //@   loop 0 invariant fullCert.FromBlock == old(fullCert.FromBlock) && fullCert.ToBlock == old(fullCert.ToBlock) && fullCert.Bridges == old(fullCert.Bridges) && fullCert.Claims == old(fullCert.Claims)
 //@   loop 0 decreases currentCert.ToBlock - currentCert.FromBlock
@@ -237,6 +242,8 @@ package flows
 //@   ensures[next-range-is-contiguous] (result1 == nil && storedLastCert != nil && storedLastCert.Status != agglayertypes.InError) ==> result0.FromBlock == storedLastCert.ToBlock + 1 && result0.RetryCount == 0
 //@   ensures[replacement-reuses-the-first-block] (result1 == nil && storedLastCert != nil && storedLastCert.Status == agglayertypes.InError && storedLastCert.FromBlock > 0) ==> result0.FromBlock == storedLastCert.FromBlock && result0.RetryCount == storedLastCert.RetryCount + 1
 //@   ensures[range-within-the-synced-blocks] result1 == nil ==> result0 != nil && result0.FromBlock <= result0.ToBlock && result0.ToBlock <= l2Synced && result0.LastSentCertificate == storedLastCert
+//@   ensures[type-as-asked] result1 == nil ==> result0.CertificateType == certType
+//@   ensures[claims-carry-a-global-index] result1 == nil ==> forall(j, 0, len(result0.Claims), result0.Claims[j].GlobalIndex != nil)
 //@   ensures[full-range-carries-exactly-its-events] (result1 == nil && result0.ToBlock == l2Synced && f.cfg.MaxCertSize == 0) ==> len(result0.Bridges) == nBridgesOf(result0.FromBlock, l2Synced) && seq(result0.Bridges) == bridgesOf(result0.FromBlock, l2Synced) && len(result0.Claims) == nClaimsOf(result0.FromBlock, l2Synced) && seq(result0.Claims) == claimsOf(result0.FromBlock, l2Synced)
 
 // gaps between the last settled range and the new one may only be empty of bridge events (and are refused outright
@@ -361,11 +368,14 @@ package flows
 // sub-range filter (same first block), and are untouched when the prover proved everything
 //@ func adjustBlockRange
 //@   props C02 C17
-//@   requires buildParams != nil && buildParams.FromBlock <= buildParams.ToBlock
+//@   requires buildParams != nil
 //@   ensures[all-proven-keeps-the-parameters] requestedToBlock == aggchainProverToBlock ==> result1 == nil && result0 == buildParams
 //@   ensures[error-means-nothing] result1 != nil ==> result0 == nil
 //@   ensures[cut-to-the-proven-range] (requestedToBlock != aggchainProverToBlock && result1 == nil) ==> result0 != nil && result0.FromBlock == buildParams.FromBlock && result0.ToBlock == aggchainProverToBlock && aggchainProverToBlock <= buildParams.ToBlock && result0.AggchainProof == old(buildParams.AggchainProof) && result0.L1InfoTreeRootFromWhichToProve == old(buildParams.L1InfoTreeRootFromWhichToProve) && result0.L1InfoTreeLeafCount == old(buildParams.L1InfoTreeLeafCount) && result0.LastSentCertificate == old(buildParams.LastSentCertificate) && result0.RetryCount == old(buildParams.RetryCount)
-//@   ensures[proven-range-outside-refused] (requestedToBlock != aggchainProverToBlock && (aggchainProverToBlock > buildParams.ToBlock || aggchainProverToBlock < buildParams.FromBlock)) ==> result1 != nil
+//@   ensures[claims-keep-their-global-index] (result1 == nil && forall(k, 0, old(len(buildParams.Claims)), old(buildParams.Claims[k]).GlobalIndex != nil)) ==> forall(j, 0, len(result0.Claims), result0.Claims[j].GlobalIndex != nil)
+//@   ensures[claims-stay-consistent-with-their-exit-roots] (result1 == nil && forall(k, 0, old(len(buildParams.Claims)), old(buildParams.Claims[k]).GlobalExitRoot == H(old(buildParams.Claims[k]).MainnetExitRoot, old(buildParams.Claims[k]).RollupExitRoot))) ==> forall(j, 0, len(result0.Claims), result0.Claims[j].GlobalExitRoot == H(result0.Claims[j].MainnetExitRoot, result0.Claims[j].RollupExitRoot))
+//@   ensures[scalars-kept] result1 == nil ==> result0.RetryCount == old(buildParams.RetryCount) && result0.LastSentCertificate == old(buildParams.LastSentCertificate) && result0.CertificateType == old(buildParams.CertificateType) && result0.CreatedAt == old(buildParams.CreatedAt)
+//@   ensures[proven-range-outside-refused] (requestedToBlock != aggchainProverToBlock && aggchainProverToBlock != buildParams.ToBlock && (aggchainProverToBlock > buildParams.ToBlock || aggchainProverToBlock < buildParams.FromBlock)) ==> result1 != nil
 
 // ---- asking the aggchain prover (C09, C02). Boundary (assumed, A8): the prover client; proofReq* record what the
 // last request asked for, proofCalls counts the requests.
@@ -419,3 +429,53 @@ package flows
 //@   ensures[asks-for-the-requested-range-against-the-returned-root] result2 == nil ==> result0 != nil && result0.SP1StarkProof != nil && result1 != nil && proofReqLast == lastProvenBlock && proofReqEnd == toBlock && proofReqRoot == result1.Hash
 //@   ensures[root-is-a-finalized-root] result2 == nil ==> result1.Hash == l1RootHashAt(result1.Index)
 //@   ensures[claims-at-or-below-the-root] result2 == nil ==> forall(k, 0, len(certBuildParams.Claims), gerLeafIndex(certBuildParams.Claims[k].GlobalExitRoot) <= result1.Index)
+
+// verify, then ask the prover from the last proven block to the end of the range, then record the root the prover was
+// given as the root the claims will be proven against (with its leaf count), and cut the range to what was proven
+//@ func (a *AggchainProverFlow) verifyBuildParamsAndGenerateProof
+//@   props C02 C09
+//@   requires a != nil && a.log != nil && a.l1InfoTreeDataQuerier != nil && a.gerQuerier != nil && a.aggchainProofClient != nil && a.baseFlow != nil && typeIs(a.baseFlow, *baseFlow) && cast(a.baseFlow, *baseFlow) != nil && buildParams != nil
+//@   requires typeIs(a.l1InfoTreeDataQuerier, *query.L1InfoTreeDataQuerier) && cast(a.l1InfoTreeDataQuerier, *query.L1InfoTreeDataQuerier) != nil && cast(a.l1InfoTreeDataQuerier, *query.L1InfoTreeDataQuerier).l1InfoTreeSyncer != nil
+//@   requires buildParams.CertificateType == types.CertificateTypeOptimistic ==> a.optimisticSigner != nil
+//@   requires forall(k, 0, len(buildParams.Claims), buildParams.Claims[k].GlobalIndex != nil)
+//@   modifies buildParams.L1InfoTreeRootFromWhichToProve, buildParams.AggchainProof, buildParams.L1InfoTreeLeafCount, buildParams.ExtraData, proofReqLast, proofReqEnd, proofReqRoot, proofCalls
+//@   ensures[error-means-nothing] result1 != nil ==> result0 == nil
+//@   ensures[at-most-one-request] proofCalls <= old(proofCalls) + 1 && (result0 != nil ==> proofCalls == old(proofCalls) + 1)
+//@   ensures[retry-keeps-first-block] result0 != nil ==> ((old(buildParams.RetryCount) > 0 && old(buildParams.LastSentCertificate) != nil) ==> old(buildParams.FromBlock) == old(buildParams.LastSentCertificate).FromBlock)
+//@   ensures[claims-consistent-with-their-exit-roots] result0 != nil ==> forall(k, 0, old(len(buildParams.Claims)), old(buildParams.Claims[k]).GlobalExitRoot == H(old(buildParams.Claims[k]).MainnetExitRoot, old(buildParams.Claims[k]).RollupExitRoot))
+//@   ensures[nothing-requested-for-inconsistent-claims] (exists(k, 0, old(len(buildParams.Claims)), old(buildParams.Claims[k]).GlobalExitRoot != H(old(buildParams.Claims[k]).MainnetExitRoot, old(buildParams.Claims[k]).RollupExitRoot))) ==> proofCalls == old(proofCalls) && result0 == nil
+//@   ensures[proof-requested-from-the-last-proven-block] result0 != nil ==> proofReqEnd == old(buildParams.ToBlock) && proofReqLast == ite(old(buildParams.FromBlock) == 0 || (old(buildParams.LastSentCertificate) != nil && old(buildParams.LastSentCertificate).ToBlock < cast(a.baseFlow, *baseFlow).cfg.StartL2Block) || old(buildParams.FromBlock) - 1 < cast(a.baseFlow, *baseFlow).cfg.StartL2Block, cast(a.baseFlow, *baseFlow).cfg.StartL2Block, old(buildParams.FromBlock) - 1)
+//@   ensures[root-given-to-the-prover-is-the-root-to-prove-against] result0 != nil ==> proofReqRoot == result0.L1InfoTreeRootFromWhichToProve && result0.L1InfoTreeRootFromWhichToProve == l1RootHashAt((result0.L1InfoTreeLeafCount + 4294967295) % 4294967296)
+//@   ensures[claims-at-or-below-that-root] result0 != nil ==> forall(k, 0, old(len(buildParams.Claims)), gerLeafIndex(old(buildParams.Claims[k]).GlobalExitRoot) <= (result0.L1InfoTreeLeafCount + 4294967295) % 4294967296)
+//@   ensures[returned-claims-consistent-with-their-exit-roots] result0 != nil ==> forall(j, 0, len(result0.Claims), result0.Claims[j].GlobalIndex != nil && result0.Claims[j].GlobalExitRoot == H(result0.Claims[j].MainnetExitRoot, result0.Claims[j].RollupExitRoot))
+//@   ensures[scalars-kept] result0 != nil ==> result0.RetryCount == old(buildParams.RetryCount) && result0.LastSentCertificate == old(buildParams.LastSentCertificate) && result0.CertificateType == old(buildParams.CertificateType) && result0.CreatedAt == old(buildParams.CreatedAt)
+//@   ensures[range-cut-to-what-was-proven] result0 != nil ==> result0.AggchainProof != nil && result0.FromBlock == old(buildParams.FromBlock) && result0.ToBlock == result0.AggchainProof.EndBlock && result0.ToBlock <= old(buildParams.ToBlock)
+
+// ---- the FEP flow's build parameters (C02, C09). A certificate in error is replaced by one over the same first block
+// and (at most) the same last block with the retry count advanced; otherwise the next range comes from the base flow
+// (its proved contract: contiguous with the last certificate) and its first block is moved up to the block after the
+// last proven one. Either way the parameters are verified and a proof is requested, except when the stored proof of
+// the certificate being replaced is reused (assumed, A8: a stored proof comes with the root it was built against).
+//@ interface github.com/agglayer/aggkit/aggsender/db.AggSenderStorage.GetLastSentCertificateHeaderWithProofIfInError (self, ctx)
+//@   modifies nothing
+//@   ensures result2 == nil ==> result0 == storedLastCert && (result1 != nil ==> result0 != nil && result0.FinalizedL1InfoTreeRoot != nil && result1.SP1StarkProof != nil)
+//@ interface github.com/agglayer/aggkit/aggsender/types.OptimisticModeQuerier.IsOptimisticModeOn (self)
+//@   modifies nothing
+
+//@ func (a *AggchainProverFlow) GetCertificateBuildParams
+//@   props C02 C09
+//@   requires a != nil && a.log != nil && a.storage != nil && a.optimisticModeQuerier != nil && a.l2BridgeQuerier != nil && a.l1InfoTreeDataQuerier != nil && a.gerQuerier != nil && a.aggchainProofClient != nil && a.optimisticSigner != nil
+//@   requires a.baseFlow != nil && typeIs(a.baseFlow, *baseFlow) && cast(a.baseFlow, *baseFlow) != nil && cast(a.baseFlow, *baseFlow).l2BridgeQuerier != nil && cast(a.baseFlow, *baseFlow).storage != nil && cast(a.baseFlow, *baseFlow).log != nil
+//@   requires typeIs(a.l1InfoTreeDataQuerier, *query.L1InfoTreeDataQuerier) && cast(a.l1InfoTreeDataQuerier, *query.L1InfoTreeDataQuerier) != nil && cast(a.l1InfoTreeDataQuerier, *query.L1InfoTreeDataQuerier).l1InfoTreeSyncer != nil
+//@   requires storedLastCert != nil ==> (storedLastCert.RetryCount < 9223372036854775807 && storedLastCert.FromBlock <= storedLastCert.ToBlock)
+//@   requires cast(a.baseFlow, *baseFlow).cfg.StartL2Block < 18446744073709551615 && l2Synced < 9223372036854775808
+//@   modifies heap
+//@   ensures[error-means-nothing] result1 != nil ==> result0 == nil
+//@   ensures[at-most-one-request] proofCalls <= old(proofCalls) + 1
+//@   ensures[replacement-keeps-the-first-block-and-advances-the-retry-count] (result0 != nil && storedLastCert != nil && storedLastCert.Status == agglayertypes.InError && result0.CertificateType == storedLastCert.CertType) ==> result0.FromBlock == storedLastCert.FromBlock && result0.ToBlock <= storedLastCert.ToBlock && result0.RetryCount == storedLastCert.RetryCount + 1 && result0.LastSentCertificate == storedLastCert
+//@   ensures[new-range-starts-after-the-last-proven-block] (result0 != nil && storedLastCert != nil && storedLastCert.Status != agglayertypes.InError) ==> result0.FromBlock == ite(storedLastCert.ToBlock < cast(a.baseFlow, *baseFlow).cfg.StartL2Block, cast(a.baseFlow, *baseFlow).cfg.StartL2Block, storedLastCert.ToBlock) + 1 && result0.RetryCount == 0
+//@   ensures[first-range-starts-after-the-start-block] (result0 != nil && storedLastCert == nil) ==> result0.FromBlock == cast(a.baseFlow, *baseFlow).cfg.StartL2Block + 1 && result0.RetryCount == 0
+//@   ensures[within-the-synced-blocks] (result0 != nil && !(storedLastCert != nil && storedLastCert.Status == agglayertypes.InError)) ==> result0.ToBlock <= l2Synced
+//@   ensures[proof-attached] result0 != nil ==> result0.AggchainProof != nil
+//@   ensures[fresh-proof-is-for-this-range-and-root] (result0 != nil && proofCalls == old(proofCalls) + 1) ==> proofReqRoot == result0.L1InfoTreeRootFromWhichToProve && result0.L1InfoTreeRootFromWhichToProve == l1RootHashAt((result0.L1InfoTreeLeafCount + 4294967295) % 4294967296) && result0.ToBlock == result0.AggchainProof.EndBlock && forall(k, 0, len(result0.Claims), result0.Claims[k].GlobalIndex != nil && result0.Claims[k].GlobalExitRoot == H(result0.Claims[k].MainnetExitRoot, result0.Claims[k].RollupExitRoot))
+//@   ensures[stored-proof-comes-with-its-root] (result0 != nil && proofCalls == old(proofCalls)) ==> storedLastCert != nil && storedLastCert.Status == agglayertypes.InError && storedLastCert.FinalizedL1InfoTreeRoot != nil && result0.L1InfoTreeRootFromWhichToProve == *storedLastCert.FinalizedL1InfoTreeRoot && result0.L1InfoTreeLeafCount == storedLastCert.L1InfoTreeLeafCount
